@@ -97,7 +97,9 @@ def gen_cases(tier, seed):
         pts = []
         for k in range(3):
             c = np.array(shells[int(rng.integers(len(shells)))]["c"])
-            if k == 1:
+            if k == 1 and not displaced:
+                # (not for displaced copies: a point on one centre is 1e-6 bohr from the other, and the 20-80 bohr
+                # translation rounds that relative position at the 1e-9 level - an artefact of the moved input)
                 pts.append([float(v) for v in c])
             else:
                 dv = rng.uniform(0.1, 1.5, size=3) * rng.choice([-1.0, 1.0], size=3)
